@@ -1,0 +1,50 @@
+//! Verification hooks, compiled only with the cargo feature `verif-hooks`.
+//!
+//! * a per-thread work counter (`tick`) with a settable hard cap: exceeding the cap
+//!   panics with a message starting with [`TICK_CAP_MSG`], which turns a runaway
+//!   loop into a deterministic, replayable event instead of a wall-clock timeout;
+//! * named reachability probes (`probe`), counted per thread.
+//!
+//! Nothing here changes what the library computes.
+
+use std::cell::{Cell, RefCell};
+use std::collections::BTreeMap;
+
+pub const TICK_CAP_MSG: &str = "verif tick cap exceeded";
+
+thread_local! {
+    static TICKS: Cell<u64> = const { Cell::new(0) };
+    static CAP: Cell<u64> = const { Cell::new(0) };
+    static PROBES: RefCell<BTreeMap<&'static str, u64>> = const { RefCell::new(BTreeMap::new()) };
+}
+
+/// Reset the counter and set the cap (0 = no cap).
+pub fn reset(cap: u64) {
+    TICKS.with(|t| t.set(0));
+    CAP.with(|c| c.set(cap));
+}
+pub fn ticks() -> u64 {
+    TICKS.with(|t| t.get())
+}
+#[inline]
+pub fn tick() {
+    let n = TICKS.with(|t| {
+        let n = t.get() + 1;
+        t.set(n);
+        n
+    });
+    let cap = CAP.with(|c| c.get());
+    if cap != 0 && n > cap {
+        // disarm first so that unwinding code cannot trip it again
+        CAP.with(|c| c.set(0));
+        panic!("{TICK_CAP_MSG} ({cap})");
+    }
+}
+#[inline]
+pub fn probe(name: &'static str) {
+    PROBES.with(|p| *p.borrow_mut().entry(name).or_insert(0) += 1);
+}
+/// Return and clear this thread's probe counters.
+pub fn take_probes() -> BTreeMap<&'static str, u64> {
+    PROBES.with(|p| std::mem::take(&mut *p.borrow_mut()))
+}
